@@ -26,15 +26,21 @@ fn horner_abs(a: &[(f64, f64)], z: (f64, f64)) -> f64 {
 }
 
 pub fn exec(case: &Value, out: &mut Out) {
+    if case.get("steps").is_some() { return exec_seq(case, out); }
     let ty = gets(case, "ty"); let refine = case["refine"].as_bool().unwrap_or(false);
     let (re, im) = if case.get("re").is_some() { (fvec(case.get("re")), fvec(case.get("im"))) } else { (fvec(case.get("a")), fvec(case.get("ai"))) };
     let a: Vec<(f64, f64)> = re.iter().enumerate().map(|(k, x)| (*x, if ty == "cx" { im.get(k).cloned().unwrap_or(0.0) } else { 0.0 })).collect();
-    let deg = a.len() as i64 - 1;
     let res: Result<Vector<Cmplx>, String> = if ty == "cx" {
         let p = Polynomial::<Cmplx>::new(a.iter().map(|x| Cmplx::new(x.0, x.1)).collect()); guarded(|| p.roots(refine))
     } else {
         let p = Polynomial::<f64>::new(a.iter().map(|x| x.0).collect()); guarded(|| p.roots(refine))
     };
+    log_roots(case, out, ty, refine, &a, res, &|_| {});
+}
+
+/// measure one call against the coefficients `a` and write the event(s)
+fn log_roots(case: &Value, out: &mut Out, ty: &str, refine: bool, a: &[(f64, f64)], res: Result<Vector<Cmplx>, String>, extra: &dyn Fn(&mut Value)) {
+    let deg = a.len() as i64 - 1;
     // true roots (optional)
     let (tr, ti) = if case.get("rre").is_some() { (fvec(case.get("rre")), fvec(case.get("rim"))) } else { (fvec(case.get("tr")), fvec(case.get("tri"))) };
     let exact = case.get("rre").is_some();
@@ -80,8 +86,16 @@ pub fn exec(case: &Value, out: &mut Out) {
     // A second class: a cubic with a root exactly at zero, polished (deg = 3, a0 = 0, refine): only the matching clause is affected.
     let lag = deg >= 4 && matches!(gets(case, "cls"), "binomial" | "ring" | "sparse" | "coeffs");
     let zp = deg == 3 && refine && a[0].0 == 0.0 && a[0].1 == 0.0;
-    let fam = if lag { "lagcycle" } else if zp { "zeropolish" } else { "" };
+    // A third class: the unrefined cubic (Complex type) whose Cardano quantity d1 = 2b^3 - 9abc + 27a^2 d lies on or within 0.6 degrees of
+    // the imaginary axis (|Re d1| <= 0.01 |d1|), e.g. a*x^3 + d with real a and purely imaginary d.
+    let ca = deg == 3 && !refine && ty == "cx" && {
+        let c = |k: usize| Cmplx::new(a[k].0, a[k].1);
+        let (ca_, cb, cc, cd) = (c(3), c(2), c(1), c(0));
+        let d1 = 2.0 * cb * cb * cb - 9.0 * ca_ * cb * cc + 27.0 * ca_ * ca_ * cd;
+        d1.real.abs() <= 0.01 * d1.abs() && d1.abs() > 0.0 };
+    let fam = if lag { "lagcycle" } else if zp { "zeropolish" } else if ca { "cardanoaxis" } else { "" };
     e["fam"] = json!(fam);
+    extra(&mut e);
     if !fam.is_empty() { for chk in ["shape", "be"] { let mut s = e.clone(); s["chk"] = json!(chk); out.ev(s); } e["chk"] = json!("match"); }
     out.ev(e);
 }
@@ -227,5 +241,130 @@ pub fn gen(tier: &str, seed: u64, out: &mut Out) {
         let mut roots: Vec<C> = vec![(0.0, 0.0); k]; roots.extend(vec![(r, 0.0); m]);
         if c != 0.0 { emit(out, &mut push, &mut rng, "zero_multiple", false, (c, 0.0), &roots, false); }
     }
+    gen_special_low(quick, &mut rng, out, &mut push);
+    gen_sequences(quick, &mut rng, out, &mut push);
     let _ = DD::ZERO;
+}
+
+// ------------------------------------------------------------------ special values in the closed-form paths (degree 1..3)
+/// one coefficient of a given kind (0 zero, 1 purely real, 2 purely imaginary, 3 general complex) and decimal exponent
+fn coef_kind(rng: &mut StdRng, kind: usize, ex: f64) -> C {
+    let m = |rng: &mut StdRng| (1.0 + 0.4 * rng.gen::<f64>()) * 10f64.powf(ex) * if rng.gen_bool(0.5) { 1.0 } else { -1.0 };
+    match kind { 0 => (0.0, 0.0), 1 => (m(rng), 0.0), 2 => (0.0, m(rng)), _ => { let t = unif(rng, 0.2, 1.37); let r = m(rng); (r * t.cos(), r * t.sin() * if rng.gen_bool(0.5) { 1.0 } else { -1.0 }) } }
+}
+/// Every combination of {zero, real, imaginary, general} coefficients in every position of a linear, quadratic and cubic polynomial,
+/// magnitudes spread by up to 1e6 in both directions, both refinement settings, real and complex element type.  Roots unknown: count,
+/// finiteness and the (per-path) backward-error guard are checked.
+fn gen_special_low(quick: bool, rng: &mut StdRng, out: &mut Out, push: &mut dyn FnMut(&mut Out, Value)) {
+    let exps = [-2.9f64, 0.0, 2.9];
+    let mut emit = |out: &mut Out, cx: bool, cls: &str, a: &[C]| {
+        for refine in [false, true] {
+            let mut c = json!({"ty": if cx { "cx" } else { "f64" }, "refine": refine, "cls": cls, "sep": false, "a": hexvec(&a.iter().map(|c| c.0).collect::<Vec<f64>>())});
+            if cx { c["ai"] = hexvec(&a.iter().map(|c| c.1).collect::<Vec<f64>>()); }
+            push(out, c);
+        }
+    };
+    let reps = if quick { 1 } else { 5 };
+    for rep in 0..reps {
+        for cx in [false, true] {
+            let lead_kinds: Vec<usize> = if cx { vec![1, 2, 3] } else { vec![1] };
+            let kinds: Vec<usize> = if cx { vec![0, 1, 2, 3] } else { vec![0, 1] };
+            // degree 1 and 2: every kind combination x every exponent combination
+            for &ka in &lead_kinds { for &kb in &kinds { for &eb in &exps {
+                let a1 = [coef_kind(rng, kb, eb), coef_kind(rng, ka, 0.0)]; emit(out, cx, "special1", &a1);
+                for &kc in &kinds { for &ec in &exps {
+                    // exponents are relative to the leading coefficient: the overall ratio stays below 1.4 * 10^5.8 < 1e6
+                    let (eb2, ec2) = (eb, ec);
+                    let a2 = [coef_kind(rng, kc, ec2), coef_kind(rng, kb, eb2), coef_kind(rng, ka, 0.0)]; emit(out, cx, "special2", &a2);
+                } }
+            } } }
+            // dominant middle coefficient (|b|^2 >> |4ac|: the branch of the stable formula matters), b real or imaginary, several sign patterns
+            for &ka in &lead_kinds { for &kb in &kinds { if kb == 0 || kb == 3 { continue; } for &kc in &kinds { if kc == 0 { continue; } for &ec in &[-2.9f64, -1.0, 0.0] { for _ in 0..3 {
+                let a2 = [coef_kind(rng, kc, ec), coef_kind(rng, kb, 2.9), coef_kind(rng, ka, 0.0)]; emit(out, cx, "special2", &a2);
+            } } } } }
+            // degree 3: every kind combination, a few exponent triples each
+            let ntrip = if quick { if cx { 2 } else { 6 } } else { 6 };
+            for &ka in &lead_kinds { for &kb in &kinds { for &kc in &kinds { for &kd in &kinds { for t in 0..ntrip {
+                let mut e = [exps[rng.gen_range(0..3)], exps[rng.gen_range(0..3)], exps[rng.gen_range(0..3)]];
+                if t == 0 { e = [0.0, 0.0, 0.0]; }
+                let lo = e.iter().cloned().fold(0.0, f64::min); let hi = e.iter().cloned().fold(0.0, f64::max);
+                let _ = (lo, hi);
+                let a3 = [coef_kind(rng, kd, e[2]), coef_kind(rng, kc, e[1]), coef_kind(rng, kb, e[0]), coef_kind(rng, ka, 0.0)]; emit(out, cx, "special3", &a3);
+            } } } } }
+        }
+        let _ = rep;
+    }
+}
+
+// ------------------------------------------------------------------ sequences on ONE object (no stale internal state)
+/// The same Polynomial object is observed (roots with either flag, repeatedly), mutated through every mutator (IndexMut, coeffs()[i] = v,
+/// coeffs().push / pop, trim) and observed again; every call is judged against the CURRENT coefficients, which the harness tracks
+/// independently from the case (`synced` = the object's own coefficients agree with that model).
+trait SeqObj { fn set(&mut self, i: usize, v: C); fn cset(&mut self, i: usize, v: C); fn push(&mut self, v: C); fn pop(&mut self); fn trim_(&mut self); fn roots_(&self, r: bool) -> Vector<Cmplx>; fn proj(&self) -> Vec<C>; }
+impl SeqObj for Polynomial<f64> {
+    fn set(&mut self, i: usize, v: C) { self[i] = v.0; } fn cset(&mut self, i: usize, v: C) { self.coeffs()[i] = v.0; } fn push(&mut self, v: C) { self.coeffs().push(v.0); }
+    fn pop(&mut self) { self.coeffs().pop(); } fn trim_(&mut self) { self.trim(); } fn roots_(&self, r: bool) -> Vector<Cmplx> { self.roots(r) }
+    fn proj(&self) -> Vec<C> { (0..self.size()).map(|i| (self[i], 0.0)).collect() } }
+impl SeqObj for Polynomial<Cmplx> {
+    fn set(&mut self, i: usize, v: C) { self[i] = Cmplx::new(v.0, v.1); } fn cset(&mut self, i: usize, v: C) { self.coeffs()[i] = Cmplx::new(v.0, v.1); } fn push(&mut self, v: C) { self.coeffs().push(Cmplx::new(v.0, v.1)); }
+    fn pop(&mut self) { self.coeffs().pop(); } fn trim_(&mut self) { self.trim(); } fn roots_(&self, r: bool) -> Vector<Cmplx> { self.roots(r) }
+    fn proj(&self) -> Vec<C> { (0..self.size()).map(|i| (self[i].real, self[i].imag)).collect() } }
+
+fn run_seq<P: SeqObj>(case: &Value, out: &mut Out, obj: &mut P, ty: &str, mut model: Vec<C>) {
+    let cxt = ty == "cx";
+    for (k, st) in case["steps"].as_array().unwrap().iter().enumerate() {
+        let v = || -> C { (hexf(&st["v"]), if cxt { hexf(&st["vi"]) } else { 0.0 }) };
+        match gets(st, "op") {
+            "set" => { let i = getu(st, "i"); obj.set(i, v()); model[i] = v(); }
+            "cset" => { let i = getu(st, "i"); obj.cset(i, v()); model[i] = v(); }
+            "push" => { obj.push(v()); model.push(v()); }
+            "pop" => { obj.pop(); model.pop(); }
+            "trim" => { obj.trim_(); while model.len() > 1 && model[model.len() - 1] == (0.0, 0.0) { model.pop(); } }
+            "roots" => {
+                let refine = st["refine"].as_bool().unwrap_or(false);
+                let res = guarded(|| obj.roots_(refine));
+                let synced = obj.proj() == model;
+                log_roots(case, out, ty, refine, &model, res, &|e| { e["step"] = json!(k); e["synced"] = json!(synced); });
+            }
+            o => { eprintln!("TOOL-ERROR unknown roots step {}", o); std::process::exit(2) }
+        }
+    }
+}
+fn exec_seq(case: &Value, out: &mut Out) {
+    let ty = gets(case, "ty"); let (re, im) = (fvec(case.get("a")), fvec(case.get("ai")));
+    let a: Vec<C> = re.iter().enumerate().map(|(k, x)| (*x, if ty == "cx" { im.get(k).cloned().unwrap_or(0.0) } else { 0.0 })).collect();
+    if ty == "cx" { let mut p = Polynomial::<Cmplx>::new(a.iter().map(|x| Cmplx::new(x.0, x.1)).collect()); run_seq(case, out, &mut p, ty, a); }
+    else { let mut p = Polynomial::<f64>::new(a.iter().map(|x| x.0).collect()); run_seq(case, out, &mut p, ty, a); }
+}
+fn gen_sequences(quick: bool, rng: &mut StdRng, out: &mut Out, push: &mut dyn FnMut(&mut Out, Value)) {
+    let reps = if quick { 2 } else { 25 };
+    for n in 2..=5usize { for cx in [false, true] { for r0 in [false, true] { for rep in 0..reps {
+        // start from a well-conditioned polynomial (random roots in a disc), then change coefficients moderately
+        let lead: C = if cx { (unif(rng, 0.5, 2.0), unif(rng, -1.0, 1.0)) } else { (unif(rng, 0.5, 2.0) * if rng.gen_bool(0.5) { 1.0 } else { -1.0 }, 0.0) };
+        let roots: Vec<C> = if cx { (0..n).map(|_| in_disc(rng, 2.0)).collect() } else { real_closed(rng, n, |r| in_disc(r, 2.0)) };
+        let mut cur = expand(lead, &roots); if !cx { for c in cur.iter_mut() { c.1 = 0.0; } }
+        let a0 = cur.clone();
+        let mut steps: Vec<Value> = vec![];
+        let obs = |steps: &mut Vec<Value>, flags: &[bool]| { for f in flags { steps.push(json!({"op": "roots", "refine": f})); } };
+        let newval = |rng: &mut StdRng, old: C| -> C { let s = -unif(rng, 1.5, 2.5); let t = unif(rng, 0.3, 0.9); if cx { (s * old.0 - t, s * old.1 + t) } else { (s * old.0 - t, 0.0) } };
+        let stepv = |op: &str, i: Option<usize>, v: C| -> Value { let mut s = json!({"op": op, "v": bits(v.0), "vi": bits(v.1)}); if let Some(i) = i { s["i"] = json!(i); } s };
+        obs(&mut steps, &[r0, r0, !r0, r0]);
+        // the mutators in a rotating order
+        let order = [[0usize, 1, 2, 3], [1, 2, 3, 0], [2, 0, 1, 3], [3, 1, 0, 2]][(n + rep) % 4];
+        for m in order {
+            match m {
+                0 => { let i = rng.gen_range(0..cur.len() - 1); let v = newval(rng, cur[i]); cur[i] = v; steps.push(stepv("set", Some(i), v)); }
+                1 => { let i = rng.gen_range(0..cur.len() - 1); let v = newval(rng, cur[i]); cur[i] = v; steps.push(stepv("cset", Some(i), v)); }
+                2 => { let v = newval(rng, cur[cur.len() - 1]); cur.push(v); steps.push(stepv("push", None, v)); }
+                _ => { if cur.len() > 3 { cur.pop(); steps.push(json!({"op": "pop"})); } else { let i = 0; let v = newval(rng, cur[i]); cur[i] = v; steps.push(stepv("set", Some(i), v)); } }
+            }
+            obs(&mut steps, &[r0, !r0, r0]);
+        }
+        // leading coefficient set to zero through IndexMut (outside the property while it lasts), then trim
+        let l = cur.len() - 1; cur[l] = (0.0, 0.0); steps.push(stepv("set", Some(l), (0.0, 0.0))); obs(&mut steps, &[r0]);
+        cur.pop(); steps.push(json!({"op": "trim"})); obs(&mut steps, &[r0, !r0]);
+        let mut c = json!({"ty": if cx { "cx" } else { "f64" }, "cls": "seq", "sep": false, "a": hexvec(&a0.iter().map(|c| c.0).collect::<Vec<f64>>()), "steps": steps});
+        if cx { c["ai"] = hexvec(&a0.iter().map(|c| c.1).collect::<Vec<f64>>()); }
+        push(out, c);
+    } } } }
 }
